@@ -56,7 +56,8 @@ struct W {
 }
 
 fn silent_addr(i: usize) -> SocketAddr {
-    server_addr(10 + i)
+    // away from the servers' own addresses (i and i + 20)
+    server_addr(100 + i)
 }
 
 impl W {
@@ -407,7 +408,9 @@ impl Property for C18 {
         let mut nw = NetWorld::new(7 + index);
         nw.servers.push(mk_server(0, 1, PROTO, 2, nw.now, true));
         // position p answers (p == n: nobody does)
-        let addrs: Vec<SocketAddr> = (0..n).map(|k| if k == p { server_addr(0) } else { silent_addr(k) }).collect();
+        // the answering server is listed under its first or its second public address
+        let live = if (n + p) % 2 == 0 { server_addr(0) } else { server_addr(20) };
+        let addrs: Vec<SocketAddr> = (0..n).map(|k| if k == p { live } else { silent_addr(k) }).collect();
         let t = nw.mint(&TokenSpec { client_id: 800, user: 1, expire_seconds: 600, timeout, addrs, key: key(1), protocol: PROTO });
         nw.add_client(t, client_addr(0), 1);
         let dt = Duration::from_millis(dt_ms);
@@ -428,7 +431,7 @@ impl Property for C18 {
             if mode == 2 {
                 // what was sent one tick ago arrives now
                 for b in std::mem::take(&mut down) {
-                    if nw.clients[0].client.server_addr() == server_addr(0) {
+                    if nw.clients[0].client.server_addr() == live {
                         nw.client_recv(0, &b);
                     }
                 }
@@ -440,17 +443,17 @@ impl Property for C18 {
                 down = replies;
                 if let Some(did) = nw.client_update(0, dt) {
                     let d = nw.pool[did].clone();
-                    if d.to == server_addr(0) {
+                    if d.to == live {
                         up = Some((d.src, d.bytes));
                     }
                 }
             } else {
                 for b in replies {
-                    if nw.clients[0].client.server_addr() == server_addr(0) {
+                    if nw.clients[0].client.server_addr() == live {
                         nw.client_recv(0, &b);
                     }
                 }
-                let lose = mode == 1 && !first_lost && nw.clients[0].client.server_addr() == server_addr(0);
+                let lose = mode == 1 && !first_lost && nw.clients[0].client.server_addr() == live;
                 if lose {
                     first_lost = true;
                     ctx.label("first_request_lost");
